@@ -561,6 +561,10 @@ class Summaries:
             return [(st, ctx.args[0])]
         return [(st, Agg("adt", "core::iter::" + name, 0, list(ctx.args), ctx.dest_ty))]
 
+    def s_range_new(self, ctx, st):
+        """core::ops::range::RangeInclusive::new"""
+        return [(st, Agg("adt", "core::ops::range::RangeInclusive", 0, [ctx.args[0], ctx.args[1], BoolV(ZERO)], ctx.dest_ty))]
+
     def s_into_iter(self, ctx, st):
         """core::iter::traits::collect::IntoIterator::into_iter"""
         if ctx.r["kind"] == "body":
@@ -592,6 +596,36 @@ class Summaries:
         ex = ctx.ex
         itv = self.deref_arg(ctx, st, ctx.args[0]) if ctx.args else None
         res = ex.abstract_call(st, ctx.fr, ctx.callee, ctx.r, ctx.args, ctx.dest_ty, ctx.span)
+        if ctx.callee["name"] == "next" and isinstance(itv, Agg) and (itv.name or "").startswith("core::ops::range::Range") \
+                and len(itv.fields) >= 2 and isinstance(itv.fields[0], IntV) and isinstance(itv.fields[1], IntV) and isinstance(ctx.args[0], Ptr):
+            # core::ops::Range / RangeInclusive over integers, modelled exactly: the event is kept (loop rules
+            # count it), the iterator state is updated precisely instead of being havoced
+            st2, ret = res[0]
+            p = ctx.args[0]
+            lo, hi = itv.fields[0], itv.fields[1]
+            incl = itv.name.endswith("RangeInclusive")
+            if incl:
+                exh = itv.fields[2].p if len(itv.fields) > 2 and isinstance(itv.fields[2], BoolV) else ZERO
+                more = (ONE - exh) * cmp_le(lo.poly(), hi.poly(), st2.facts)
+                last = cmp_eq(lo.poly(), hi.poly(), st2.facts)
+                new_lo = IntV(lo.bits, lo.signed, p=lo.poly() + more * (ONE - last))
+                new_exh = BoolV(exh + (ONE - exh) * more * last)
+                nv = Agg(itv.kind, itv.name, itv.variant, [mk_ite(more, new_lo, lo), hi, new_exh], itv.ty, itv.extra)
+            else:
+                more = cmp_lt(lo.poly(), hi.poly(), st2.facts)
+                new_lo = IntV(lo.bits, lo.signed, p=lo.poly() + more)
+                nv = Agg(itv.kind, itv.name, itv.variant, [new_lo, hi] + list(itv.fields[2:]), itv.ty, itv.extra)
+            ex.write(st2, p.root, p.path, nv, p.pty)
+            if isinstance(ret, SymV):
+                some = ex.variant_cond(ret, 1)
+                # the result is Some(old start) exactly when there was an element left
+                st2.facts.assume(some * more + (ONE - some) * (ONE - more), 1)
+                item = ex.expand_sym(ret, 1).fields[0]
+                if isinstance(item, IntV):
+                    st2.facts.add_conditional(some, item.poly() - lo.poly())
+                    st2.facts.add_conditional(some, lo.poly() - item.poly())
+                    st2.facts.add_conditional(some, (hi.poly() if incl else hi.poly() - 1) - item.poly())
+            return res
         if ctx.callee["name"] == "next" and isinstance(itv, Agg) and itv.name == "core::iter::filter" and len(itv.fields) == 2:
             # core::iter::Filter: every item it yields satisfies the predicate
             st2, ret = res[0]
